@@ -733,7 +733,7 @@ const C_LEAVES: &[(&str, Option<u32>, Option<u32>)] = &[
     ("leaf with a FUNC record only (parameter size 0)", Some(MOD as u32 + 0x3010), Some(0)),
     ("no leaf: the record's frame is the context frame", None, None),
 ];
-const C_RETURNS: &[(&str, u32)] = &[("return slot = callee eip", C_RA1), ("return slot = other call site of the same function", C_RA_F2), ("return slot = outer function", C_RA_MAIN)];
+const C_RETURNS: &[(&str, u32)] = &[("return slot = callee eip", C_RA1), ("return slot = other call site of the same function", C_RA_F2), ("return slot = outer function", C_RA_MAIN), ("return slot AND the word after it = callee eip", C_RA1)];
 const C_LOCALS: &[u32] = &[0, 4, 0xffff_fff8];
 const C_VALID: &[Option<&[&str]>] = &[None, Some(&["eip", "esp", "ebp"])];
 const C_REGS: [&str; 6] = ["eip", "esp", "ebp", "ebx", "esi", "edi"];
@@ -798,6 +798,12 @@ fn chain_case(idx: u64, radices: &[u64]) -> ChainCase {
     let slot1 = C_ESP_F as u64 + f_sz.locals as u64 + f_sz.saved as u64 + leaf_func.unwrap_or(0) as u64;
     put(slot1, r);
     let mut esp = slot1 + 4;
+    if ret == 3 {
+        // a leftover return address followed by a genuine recursive return to the same address: the documented skip
+        // steps over ONE word
+        put(slot1 + 4, r);
+        esp = slot1 + 8;
+    }
     if r != C_RA_MAIN {
         // second activation of f; its callee is f, whose STACK WIN parameter size counts
         let slot2 = esp + f_sz.locals as u64 + f_sz.saved as u64 + f_sz.params as u64;
@@ -1007,7 +1013,7 @@ fn main() {
         let mut def = CheckDef::new(
             "C07",
             "exploration",
-            "bounded-exhaustive differential against the reference interpreter vh::refwin: (programs) every token sequence of length 1..=L over the 30-token WIN alphabet (and, beyond L, every WELL-FORMED program — the stack never underflows and is empty at the end — of exactly L+1 tokens over the full push alphabet and L+2 tokens over a reduced one) as the program string of a frame-data record, evaluated by the real parser + SymbolFile::walk_frame through a mock FrameWalker in 4 callee states (+3 always-failing states for length <= 2), comparing Some/None, the exact set of reported registers and their values; (fpo) the full product size-field menu^3 x allocates_base_pointer x esp menu x ebp valid/invalid x ebx present/missing x 5 grand-callee settings x callee eip equal/unequal to the return-slot word; (size-fields) size-field menu^3 x 4 programs x 120 callee states; (two-records) 2 x 6 record kinds (incl. unknown type and inconsistent has_program) x 9 range arrangements x 2 file orders x 14 lookups; (x86-walk_stack) 81 programs + 2 FPO forms for the first step x 3 records for the second step (with grand callee) x 4 context validity sets through the real walk_stack, comparing the caller frame's validity set and register values; (x86-walk_stack-chains) whole stacks of 2-4 frames through the real walk_stack with two modules (one without symbols): 6 grand-callee settings for the record's frame (leaf in a module without symbols / at an address no record covers / outside all modules / known from a FUNC record only with parameter size 8 or 0 / no leaf: the record's frame is the context frame) x 3 records of the function f (FPO without and with ebp pushed, a frame-data program) x size fields params {0,8} x saved {0,8} x locals {0,4,0xfffffff8} x 3 words at the return slot (the callee's own eip = direct recursion or a leftover return address / another call site of f / the outer function) x 2 context validity sets, comparing the number of frames and eip and esp of every frame with a reference walk. distinct_nontrivial = distinct (space, callee state / validity, reference outcome incl. register values); for two-records distinct (file, lookup); for chains distinct (grand-callee setting, validity, reference chain).",
+            "bounded-exhaustive differential against the reference interpreter vh::refwin: (programs) every token sequence of length 1..=L over the 30-token WIN alphabet (and, beyond L, every WELL-FORMED program — the stack never underflows and is empty at the end — of exactly L+1 tokens over the full push alphabet and L+2 tokens over a reduced one) as the program string of a frame-data record, evaluated by the real parser + SymbolFile::walk_frame through a mock FrameWalker in 4 callee states (+3 always-failing states for length <= 2), comparing Some/None, the exact set of reported registers and their values; (fpo) the full product size-field menu^3 x allocates_base_pointer x esp menu x ebp valid/invalid x ebx present/missing x 5 grand-callee settings x callee eip equal/unequal to the return-slot word; (size-fields) size-field menu^3 x 4 programs x 120 callee states; (two-records) 2 x 6 record kinds (incl. unknown type and inconsistent has_program) x 9 range arrangements x 2 file orders x 14 lookups; (x86-walk_stack) 81 programs + 2 FPO forms for the first step x 3 records for the second step (with grand callee) x 4 context validity sets through the real walk_stack, comparing the caller frame's validity set and register values; (x86-walk_stack-chains) whole stacks of 2-4 frames through the real walk_stack with two modules (one without symbols): 6 grand-callee settings for the record's frame (leaf in a module without symbols / at an address no record covers / outside all modules / known from a FUNC record only with parameter size 8 or 0 / no leaf: the record's frame is the context frame) x 3 records of the function f (FPO without and with ebp pushed, a frame-data program) x size fields params {0,8} x saved {0,8} x locals {0,4,0xfffffff8} x 4 fillings of the return slot (the callee's own eip = direct recursion or a leftover return address / another call site of f / the outer function / the callee's own eip in the slot and in the word after it) x 2 context validity sets, comparing the number of frames and eip and esp of every frame with a reference walk. distinct_nontrivial = distinct (space, callee state / validity, reference outcome incl. register values); for two-records distinct (file, lookup); for chains distinct (grand-callee setting, validity, reference chain).",
         );
         def.assumptions = vec![
             "the reference is written from the module documentation of walker.rs and the property statement; the '@' rule (.raSearch = $ebp + 4 when the program text contains '@'), the leftover-return-address skip and the '=tok' spelling are only named there and are taken from the prose comments beside the code".into(),
